@@ -293,6 +293,7 @@ func (s *EnvSpec) Build(log *[]string) Env {
 	e := deepCopy(reflect.ValueOf(s.Env)).Interface().(Env)
 	e.Any = s.AnyV.Value()
 	e.Z.Tw = Elem{V: e.Z.TwV, Name: "tw"}
+	e.Z.BuildMX()
 	e.log = log
 	e.Inc = func(i int) int { return i + 1 }
 	e.Cat = func(a, b string) string { return a + "|" + b }
